@@ -461,6 +461,28 @@ func exec(line string) hx.Result {
 	} else if dumpString(d2, true) != dumpString(d, true) {
 		viol = append(viol, hx.Fail("C12:rejected-add-changed-result", "automaton differs from New(accepted words)"))
 	}
+	// New on the whole argument list, bad insertions included: an error exactly when the list is
+	// not strictly increasing (the Dawg returned next to an error is not defined, not looked at)
+	tk := make([][]byte, len(c.tokens))
+	for i, w := range c.tokens {
+		tk[i] = append([]byte{}, w...)
+	}
+	dn, errN := dawg.New(tk)
+	increasing := true
+	for i := 1; i < len(c.tokens); i++ {
+		if bytes.Compare(c.tokens[i-1], c.tokens[i]) >= 0 {
+			increasing = false
+		}
+	}
+	newObs := "ok"
+	if errN != nil {
+		newObs = "err"
+	}
+	if (errN == nil) != increasing {
+		viol = append(viol, hx.Fail("C12:new-accepts-bad-list", "New returned error %v on a list of %d words that is strictly increasing: %v", errN, len(c.tokens), increasing))
+	} else if errN == nil && (dn == nil || dumpString(dn, true) != dumpAtFinish) {
+		viol = append(viol, hx.Fail("C12:new-differs", "New on the (valid) argument list built another automaton than the Builder"))
+	}
 	probes := append(allProbes(c.alpha, c.plen), c.extra...)
 	nwBefore := d.NumberOfWords()
 	lk := make([]string, len(probes))
@@ -506,8 +528,8 @@ func exec(line string) hx.Result {
 	if first != nil && dumpString(first, true) != firstDump {
 		viol = append(viol, hx.Fail("C12:history-first-dawg-changed", "the automaton of the first build changed later"))
 	}
-	obs := fmt.Sprintf("acc=%s words=%s ranks=%s nw=%d nodes=%d lk=%s ## reg=%s lastid=%d dump=%s",
-		acc.String(), strings.Join(ws, ","), hx.Ints(ids), d.NumberOfWords(), nodes, strings.Join(lk, ","),
+	obs := fmt.Sprintf("acc=%s new=%s words=%s ranks=%s nw=%d nodes=%d lk=%s ## reg=%s lastid=%d dump=%s",
+		acc.String(), newObs, strings.Join(ws, ","), hx.Ints(ids), d.NumberOfWords(), nodes, strings.Join(lk, ","),
 		joinU64(reg), lastID, dumpString(d, true))
 	properPrefix := false
 	for i := 1; i < len(accepted) && !properPrefix; i++ {
@@ -770,6 +792,50 @@ func gen(g *hx.Gen) {
 		}
 	}
 	g.Exhaustive("Builder histories (Initialise twice; build + Finish + Initialise; Adds + Initialise; the same keeping the first Dawg; a second Builder alive and fed call by call) x 7 first lives x 7 Add sequences over {\"\", a, b} x zero/initialised Builder")
+	// invalid lists (for New and for the Builder): one defect -- duplicate, two neighbours swapped,
+	// the empty word not first, a word followed by its proper prefix, a smaller word from far
+	// back -- at the first, a middle and the last pair of lists of 2, 3, 4, 17, 64, 65 words
+	for _, n := range []int{2, 3, 4, 17, 64, 65} {
+		for rep := g.Pick(1, 6); rep > 0; rep-- {
+			alpha := [][]byte{ab, []byte("abc"), {0x00, 0xff}, []byte("019")}[r.Intn(4)]
+			base := manyWords(r, alpha, n)
+			for len(base) < n || len(base[0]) == 0 {
+				base = manyWords(r, alpha, n+1)
+				if len(base) > 0 && len(base[0]) == 0 {
+					base = base[1:]
+				}
+			}
+			base = base[:n]
+			for _, at := range []int{1, n / 2, n - 1} { // the defect is the pair (at-1, at)
+				if at < 1 {
+					at = 1
+				}
+				for kind := 0; kind < 5; kind++ {
+					l := make([][]byte, n)
+					copy(l, base)
+					switch kind {
+					case 0:
+						l[at] = l[at-1]
+					case 1:
+						l[at-1], l[at] = l[at], l[at-1]
+					case 2:
+						l[at] = []byte{}
+					case 3: // w.x then w
+						l[at-1] = cat(base[at], alpha[:1])
+						if at >= 2 && bytes.Compare(l[at-2], l[at-1]) >= 0 {
+							continue // would add a second defect
+						}
+					default:
+						l[at] = base[0]
+						if at == 1 {
+							l[at] = base[0][:len(base[0])-1]
+						}
+					}
+					emit(tcase{alpha: ab, plen: 1, zero: r.Chance(1, 3), tokens: l, extra: [][]byte{base[at], base[at-1], base[n-1]}})
+				}
+			}
+		}
+	}
 	// exhaustive: every subset of the 15 words of length <= 3 over {a,b}
 	all := sortDedup(allProbes(ab, 3))
 	subset := func(mask int) [][]byte {
